@@ -16,13 +16,12 @@ type DB2 = Decomposed<Vector2<Xq>, Basis2<Xq>>;
 
 fn dq(x: &[Xq]) -> DQ { Decomposed { scale: x[0], rot: qn(&x[1..5]), disp: v3(&x[5..8]) } }
 /// Basis3 from a unit quaternion [s,x,y,z] (the model is given the matrix entries)
-fn db3(x: &[Xq], q: &[BigRat]) -> DB3 {
-    let qq: Vec<Xq> = q.iter().map(|r| Xq::new(r.clone())).collect();
-    Decomposed { scale: x[0], rot: Basis3::from_quaternion(&qn(&qq)), disp: v3(&x[10..13]) }
+fn db3(x: &[Xq], _q: &[BigRat]) -> DB3 {
+    Decomposed { scale: x[0], rot: b3(&x[1..10]), disp: v3(&x[10..13]) }
 }
 /// Basis2 from an angle k*v of the case's base angle
-fn db2(x: &[Xq], ang: &BigRat) -> DB2 {
-    Decomposed { scale: x[0], rot: Basis2::from_angle(Rad(Xq::new(ang.clone()))), disp: v2(&x[5..7]) }
+fn db2(x: &[Xq], _ang: &BigRat) -> DB2 {
+    Decomposed { scale: x[0], rot: b2(&x[1..5]), disp: v2(&x[5..7]) }
 }
 
 /// scale factors: generic, zero, negative, negligibly small (treated as zero by ulps_eq), small but not negligible
